@@ -10,6 +10,12 @@
 //!                                            (hooks) and the public typed calculate_token /
 //!                                            compute_partition_key
 //!   T <m|c> <values>                         calculate_token_for_partition_key (hook)
+//!   R ...                                      = K, but must be run by a binary built WITHOUT overflow checks
+//!   E <s|x|u> <rows> <ks:table> <key>        mock cluster whose scylla_tables has exactly <rows> (x: no such
+//!                                            table; u: target table unknown to the metadata), real Session,
+//!                                            Session::prepare, get_partitioner_name, calculate_token
+//!   Y <m|c> <types> <pk indexes> <cells>     typed CqlValue rows through calculate_token / compute_partition_key
+//!   Z <m|c> <n> <msb> <bytes>                hash_one, then Sharder::shard_of
 //!   P <N|V<name bytes>> <bytes>              PartitionerName::from_str (hook); then the expression of
 //!                                            Session::prepare / ClusterState::do_compute_token
 //!                                            `name.and_then(from_str).unwrap_or_default()` (rebuilt here
@@ -28,6 +34,7 @@ use scylla::value::MaybeUnset;
 use scylla_cql::frame::protocol_features::ProtocolFeatures;
 use scylla_cql::frame::response::result as cqlres;
 use std::panic::AssertUnwindSafe;
+use vh::mocknode as mn;
 use vh::*;
 
 #[derive(Clone, Debug)]
@@ -240,7 +247,25 @@ fn run_case(case: &str) -> String {
             };
             format!("{} {}", from, tok)
         }
-        "K" => {
+        "Z" => {
+            let n = u16::from_str_radix(f[2], 16).unwrap();
+            let msb = u8::from_str_radix(f[3], 16).unwrap();
+            let data = unhex(f[4]);
+            let cdc = f[1] == "c";
+            match catch(move || {
+                let t = if cdc { CDCPartitioner.hash_one(&data) } else { Murmur3Partitioner.hash_one(&data) };
+                let sharder = scylla::routing::Sharder::new(scylla::routing::ShardCount::new(n).unwrap(), msb);
+                (t.value(), sharder.shard_of(t))
+            }) {
+                Ok((t, sh)) => format!("{} {:x}", hex_i(t as i128), sh),
+                Err(_) => "panic panic".into(),
+            }
+        }
+        "Y" => run_y(&f),
+        "K" | "R" => {
+            if (f[0] == "R") == overflow_checks_on() {
+                return "error wrong-build-mode".into();
+            }
             let ncols = usize::from_str_radix(f[2], 16).unwrap();
             let wire = wire_from_string(f[3]);
             let vals = values_from_string(f[4]);
@@ -298,6 +323,216 @@ fn run_case(case: &str) -> String {
             format!("{} {} {} {} {}", slots, chunks, token, typed, pk)
         }
         _ => "error unknown-case".into(),
+    }
+}
+
+/// is this binary built with overflow checks?
+fn overflow_checks_on() -> bool {
+    std::panic::catch_unwind(|| std::hint::black_box(255u8) + std::hint::black_box(1u8)).is_err()
+}
+
+fn type_id(t: &str) -> u16 {
+    match t {
+        "i" => 0x0009,
+        "b" => 0x0002,
+        "s" => 0x000D,
+        "u" => 0x000C,
+        "o" => 0x0004,
+        "h" => 0x0013,
+        "t" => 0x0014,
+        _ => 0x0003,
+    }
+}
+
+fn parse_i(s: &str) -> i128 {
+    if let Some(r) = s.strip_prefix('-') { -(i128::from_str_radix(r, 16).unwrap()) } else { i128::from_str_radix(s, 16).unwrap() }
+}
+
+/// typed rows: real column types in the PREPARED response, CqlValue cells
+fn run_y(f: &[&str]) -> String {
+    use scylla::value::CqlValue;
+    let types: Vec<&str> = if f[2] == "-" { vec![] } else { f[2].split(',').collect() };
+    let wire = wire_from_string(f[3]);
+    let mut b = Vec::new();
+    b.extend_from_slice(&4i32.to_be_bytes());
+    b.extend_from_slice(&2u16.to_be_bytes());
+    b.extend_from_slice(b"id");
+    b.extend_from_slice(&1i32.to_be_bytes());
+    b.extend_from_slice(&(types.len() as i32).to_be_bytes());
+    b.extend_from_slice(&(wire.len() as i32).to_be_bytes());
+    for i in &wire {
+        b.extend_from_slice(&i.to_be_bytes());
+    }
+    put_string(&mut b, "ks");
+    put_string(&mut b, "t");
+    for (c, t) in types.iter().enumerate() {
+        put_string(&mut b, &format!("c{}", c));
+        b.extend_from_slice(&type_id(t).to_be_bytes());
+    }
+    b.extend_from_slice(&4i32.to_be_bytes());
+    b.extend_from_slice(&0i32.to_be_bytes());
+    let ps = match cqlres::deserialize_with_features(Bytes::from(b), None, &ProtocolFeatures::default()) {
+        Ok(cqlres::Result::Prepared(resp)) => hooks::prepared_statement_from_response(resp, partitioner_name(f[1])),
+        _ => return "error deser".into(),
+    };
+    let row: Vec<MaybeUnset<Option<CqlValue>>> = if f[4] == "-" {
+        vec![]
+    } else {
+        f[4].split(',')
+            .map(|c| match c {
+                "N" => MaybeUnset::Set(None),
+                "U" => MaybeUnset::Unset,
+                _ => {
+                    let (k, v) = (&c[0..1], &c[2..]);
+                    MaybeUnset::Set(Some(match k {
+                        "i" => CqlValue::Int(parse_i(v) as i32),
+                        "b" => CqlValue::BigInt(parse_i(v) as i64),
+                        "h" => CqlValue::SmallInt(parse_i(v) as i16),
+                        "t" => CqlValue::TinyInt(parse_i(v) as i8),
+                        "s" => CqlValue::Text(String::from_utf8(unhex(v)).expect("utf8")),
+                        "u" => CqlValue::Uuid(uuid::Uuid::from_slice(&unhex(v)).expect("uuid")),
+                        "o" => CqlValue::Boolean(v == "1"),
+                        _ => CqlValue::Blob(unhex(v)),
+                    }))
+                }
+            })
+            .collect()
+    };
+    let tok = match catch(AssertUnwindSafe(|| ps.calculate_token(&row))) {
+        Ok(Ok(None)) => "none".to_string(),
+        Ok(Ok(Some(t))) => format!("some:{}", hex_i(t.value() as i128)),
+        Ok(Err(e)) => pk_err(&e),
+        Err(_) => "panic".into(),
+    };
+    let pk = match catch(AssertUnwindSafe(|| ps.compute_partition_key(&row))) {
+        Ok(Ok(b)) => format!("ok:{}", hex_bytes(&b)),
+        Ok(Err(e)) => pk_err(&e),
+        Err(_) => "panic".into(),
+    };
+    format!("{} {}", tok, pk)
+}
+
+// ------------------------------------------------------------------ end to end (mocknode)
+
+/// all E cases of one group share (mode, rows): one mock cluster, one Session
+async fn run_e_group(cases: &[String]) -> Vec<String> {
+    use mn::*;
+    let f0: Vec<&str> = cases[0].split_whitespace().collect();
+    let mode = f0[1];
+    let rows: Vec<(String, String, Option<String>)> = if f0[2] == "-" {
+        vec![]
+    } else {
+        f0[2].split(',')
+            .map(|r| {
+                let x: Vec<&str> = r.split(':').collect();
+                let p = if x[2] == "N" { None } else { Some(String::from_utf8(unhex(&x[2][1..])).unwrap()) };
+                (x[0].to_string(), x[1].to_string(), p)
+            })
+            .collect()
+    };
+    let targets: Vec<(String, String)> = cases
+        .iter()
+        .map(|c| {
+            let t = c.split_whitespace().nth(3).unwrap();
+            let (k, n) = t.split_once(':').unwrap();
+            (k.to_string(), n.to_string())
+        })
+        .collect();
+    let mk_table = |n: &str| TableDef::new(n, &[("pk", CqlType::Blob)], &[], &[]);
+    // tables known to the metadata: those of the rows, and the targets unless the mode says unknown
+    let mut known: Vec<(String, String)> = rows.iter().map(|r| (r.0.clone(), r.1.clone())).collect();
+    if mode != "u" {
+        known.extend(targets.iter().cloned());
+    }
+    known.sort();
+    known.dedup();
+    let mut spec = ClusterSpec::uniform("c03", &[("dc1", 1)], 1, 4, 1);
+    let mut kss: Vec<String> = known.iter().map(|k| k.0.clone()).chain(targets.iter().map(|t| t.0.clone())).collect();
+    kss.sort();
+    kss.dedup();
+    for ks in &kss {
+        let mut kd = KeyspaceDef::simple(ks, 1);
+        for (k, t) in &known {
+            if k == ks {
+                kd = kd.with_table(mk_table(t));
+            }
+        }
+        spec = spec.with_keyspace(kd);
+    }
+    if mode == "x" {
+        spec.options.scylla_tables = false;
+    } else {
+        spec.extra_tables.push(ExtraTable {
+            name: "system_schema.scylla_tables".into(),
+            columns: vec![("keyspace_name".into(), CqlType::Text), ("table_name".into(), CqlType::Text), ("partitioner".into(), CqlType::Text)],
+            rows: rows.iter().map(|(k, t, p)| vec![cell::text(k), cell::text(t), p.as_ref().map(|x| x.as_bytes().to_vec())]).collect(),
+        });
+    }
+    let cluster = match MockCluster::start(spec).await {
+        Ok(c) => c,
+        Err(e) => return cases.iter().map(|_| format!("error cluster-start {}", e).replace(' ', "_")).collect(),
+    };
+    let session = match scylla::client::session_builder::SessionBuilder::new()
+        .known_node_addr(cluster.contact_point(0))
+        .local_ip_address(Some(cluster.client_ip()))
+        .connection_timeout(std::time::Duration::from_secs(5))
+        .build()
+        .await
+    {
+        Ok(s) => s,
+        Err(e) => {
+            cluster.shutdown();
+            return cases.iter().map(|_| format!("error session {}", e).replace(' ', "_")).collect();
+        }
+    };
+    let mut out = Vec::new();
+    for (c, (ks, t)) in cases.iter().zip(&targets) {
+        let key = unhex(c.split_whitespace().nth(4).unwrap());
+        let text = format!("SELECT pk FROM {}.{} WHERE pk = ?", ks, t);
+        cluster.on_prepare(&text, mk_table(t).prepared(ks, &["pk"], &["pk"]));
+        let r = match session.prepare(text.as_str()).await {
+            Err(e) => format!("error prepare {}", e).replace(' ', "_"),
+            Ok(ps) => {
+                let part = match ps.get_partitioner_name() {
+                    PartitionerName::Murmur3 => "m",
+                    PartitionerName::CDC => "c",
+                    _ => "other",
+                };
+                let tok = match ps.calculate_token(&(key,)) {
+                    Ok(Some(t)) => format!("some:{}", hex_i(t.value() as i128)),
+                    Ok(None) => "none".into(),
+                    Err(e) => pk_err(&e),
+                };
+                format!("{} {}", part, tok)
+            }
+        };
+        out.push(r);
+    }
+    cluster.shutdown();
+    drop(session);
+    out
+}
+
+/// run every case; consecutive E cases with the same (mode, rows) share a cluster
+fn run_all(rt: &tokio::runtime::Runtime, cases: &[String], out: &mut Out) {
+    let mut i = 0;
+    while i < cases.len() {
+        if cases[i].starts_with("E ") {
+            let key = |c: &String| c.split_whitespace().take(3).collect::<Vec<_>>().join(" ");
+            let mut j = i + 1;
+            while j < cases.len() && cases[j].starts_with("E ") && key(&cases[j]) == key(&cases[i]) && j - i < 12 {
+                j += 1;
+            }
+            let res = rt.block_on(run_e_group(&cases[i..j]));
+            for (c, o) in cases[i..j].iter().zip(res) {
+                out.case(c, &o);
+            }
+            i = j;
+        } else {
+            let o = run_case(&cases[i]);
+            out.case(&cases[i], &o);
+            i += 1;
+        }
     }
 }
 
@@ -480,6 +715,151 @@ fn gen_p_case(r: &mut Rng) -> String {
     format!("P {} {}", n, hex_bytes(&data))
 }
 
+fn gen_class_name(r: &mut Rng) -> Option<String> {
+    match r.below(10) {
+        0 => None,
+        1 | 2 | 3 => Some("com.scylladb.dht.CDCPartitioner".into()),
+        4 | 5 => Some("org.apache.cassandra.dht.Murmur3Partitioner".into()),
+        6 => Some("org.apache.cassandra.dht.RandomPartitioner".into()),
+        7 => Some("CDCPartitioner".into()),
+        8 => Some(format!("x.y.{}Partitioner", r.pick(&["CDC", "Murmur3", "cdc", "Foo"]))),
+        _ => Some("".into()),
+    }
+}
+
+/// a group of E cases sharing one cluster: rows for a few tables (with duplicates and rows of
+/// other keyspaces), then one case per target table
+fn gen_e_group(r: &mut Rng) -> Vec<String> {
+    let mode = match r.below(10) {
+        0 => "x",
+        1 => "u",
+        _ => "s",
+    };
+    let kss = ["ks", "other"];
+    let tbs = ["log", "t", "u", "v"];
+    let mut rows: Vec<String> = Vec::new();
+    let nrows = r.range(0, 7) as usize;
+    for _ in 0..nrows {
+        let k = *r.pick(&kss);
+        let t = *r.pick(&tbs);
+        let p = match gen_class_name(r) {
+            None => "N".to_string(),
+            Some(s) => format!("V{}", if s.is_empty() { String::new() } else { hex_bytes(s.as_bytes()) }),
+        };
+        rows.push(format!("{}:{}:{}", k, t, p));
+    }
+    let rows_s = if rows.is_empty() { "-".to_string() } else { rows.join(",") };
+    let n = r.range(3, 6) as usize;
+    (0..n)
+        .map(|_| {
+            let k = *r.pick(&kss);
+            let t = if mode == "u" { "ghost" } else { *r.pick(&tbs) };
+            let len = r.range(0, 20) as usize;
+            format!("E {} {} {}:{} {}", mode, rows_s, k, t, hex_bytes(&gen_bytes(r, len)))
+        })
+        .collect()
+}
+
+fn gen_typed_cell(r: &mut Rng, t: &str) -> String {
+    match t {
+        "i" => {
+            let x = r.u64() as i32;
+            format!("i:{}", hex_i(*r.pick(&[0i32, -1, 1, i32::MIN, i32::MAX, x]) as i128))
+        }
+        "b" => {
+            let x = r.i64();
+            format!("b:{}", hex_i(*r.pick(&[0i64, -1, i64::MIN, i64::MAX, x]) as i128))
+        }
+        "h" => {
+            let x = r.u64() as i16;
+            format!("h:{}", hex_i(*r.pick(&[0i16, -1, i16::MIN, i16::MAX, x]) as i128))
+        }
+        "t" => {
+            let x = r.u64() as i8;
+            format!("t:{}", hex_i(*r.pick(&[0i8, -1, i8::MIN, i8::MAX, x]) as i128))
+        }
+        "o" => format!("o:{}", r.below(2)),
+        "u" => format!("u:{}", hex_bytes(&r.bytes(16))),
+        "s" => {
+            let n = r.range(0, 40) as usize;
+            let s: String = (0..n).map(|_| *r.pick(&['a', 'Z', '0', ' ', 'ż', 'ó', '€', '\u{10348}'])).collect();
+            format!("s:{}", hex_bytes(s.as_bytes()))
+        }
+        _ => {
+            let n = r.range(0, 40) as usize;
+            format!("x:{}", hex_bytes(&gen_bytes(r, n)))
+        }
+    }
+}
+
+/// Y case: typed columns, typed key values, permuted markers; 1/10 with a wrongly typed /
+/// missing / null key cell
+fn gen_y_case(r: &mut Rng) -> String {
+    let p = gen_partitioner(r);
+    let k = r.range(1, 5) as usize;
+    let m = r.range(k as u64, 8) as usize;
+    let tys = ["i", "b", "s", "u", "o", "h", "t", "x"];
+    let types: Vec<&str> = (0..m).map(|_| *r.pick(&tys)).collect();
+    let mut pos: Vec<u16> = (0..m as u16).collect();
+    r.shuffle(&mut pos);
+    let wire: Vec<u16> = pos[..k].to_vec();
+    let mut cells: Vec<String> = types
+        .iter()
+        .enumerate()
+        .map(|(i, t)| {
+            if !wire.contains(&(i as u16)) && r.chance(1, 3) {
+                if r.bool() { "N".to_string() } else { "U".to_string() }
+            } else {
+                gen_typed_cell(r, t)
+            }
+        })
+        .collect();
+    if r.chance(1, 10) {
+        let at = *r.pick(&wire) as usize;
+        match r.below(3) {
+            0 => {
+                let other = *r.pick(&tys);
+                cells[at] = gen_typed_cell(r, other); // maybe a type mismatch
+            }
+            1 => cells[at] = "N".into(),
+            _ => {
+                cells.pop(); // wrong column count
+            }
+        }
+    }
+    format!("Y {} {} {} {}", p, types.join(","), hex_list(&wire), if cells.is_empty() { "-".to_string() } else { cells.join(",") })
+}
+
+fn gen_z_case(r: &mut Rng) -> String {
+    let p = gen_partitioner(r);
+    let n = match r.below(4) {
+        0 => r.range(1, 8),
+        1 => *r.pick(&[1u64, 2, 255, 256, 32767, 65535]),
+        _ => r.range(1, 65535),
+    };
+    let msb = if r.chance(1, 3) { *r.pick(&[0u64, 12, 63]) } else { r.below(64) };
+    let data = if p == "c" {
+        // CDC: edge tokens (i64::MIN -> MAX, MAX, MIN+1, -1, 0) and short keys (Token::INVALID)
+        match r.below(4) {
+            0 => {
+                let v = *r.pick(&[i64::MIN, i64::MAX, i64::MIN + 1, -1i64, 0]);
+                let mut d = v.to_be_bytes().to_vec();
+                d.extend_from_slice(&r.bytes(8));
+                d
+            }
+            1 => {
+                let l = r.below(8) as usize;
+                r.bytes(l)
+            }
+            _ => r.bytes(16),
+        }
+    } else {
+        let len = r.range(0, 40) as usize;
+        gen_bytes(r, len)
+    };
+    format!("Z {} {:x} {:x} {}", p, n, msb, hex_bytes(&data))
+}
+
 /// all injective maps from k sequence positions into m marker positions
 fn injections(k: usize, m: usize, cur: &mut Vec<u16>, out: &mut Vec<Vec<u16>>) {
     if cur.len() == k {
@@ -499,11 +879,9 @@ fn main() {
     let a = parse_args();
     quiet_panics();
     let mut out = Out::create(&a.out);
+    let rt = tokio::runtime::Builder::new_multi_thread().worker_threads(2).enable_all().build().expect("runtime");
     if let Some(p) = &a.replay {
-        for c in read_cases(p) {
-            let o = run_case(&c);
-            out.case(&c, &o);
-        }
+        run_all(&rt, &read_cases(p), &mut out);
         out.finish();
         return;
     }
@@ -584,6 +962,21 @@ fn main() {
         }
     }
     emit("P N 0102030405060708090a0b0c0d0e0f10".to_string(), &mut out);
+
+    // typed keys, token -> shard, end-to-end partitioner lookup
+    let ny = (a.n / 20).max(200);
+    for _ in 0..ny {
+        emit(gen_y_case(&mut r), &mut out);
+    }
+    for _ in 0..(a.n / 30).max(200) {
+        emit(gen_z_case(&mut r), &mut out);
+    }
+    let ngroups = if thorough { 1500 } else { 300 };
+    let mut ecases: Vec<String> = Vec::new();
+    for _ in 0..ngroups {
+        ecases.extend(gen_e_group(&mut r));
+    }
+    run_all(&rt, &ecases, &mut out);
 
     // seeded random part
     for _ in 0..a.n {
